@@ -495,6 +495,76 @@ func TestC03Matrix(t *testing.T) {
 	col.SetExhaustive(true)
 }
 
+// TestC03Rotation: where the required witness is defined by the NeoFSAlphabet role, the list in force in the
+// block of the invocation decides - the dismissed keys are "nobody relevant" from the first block on.
+func TestC03Rotation(t *testing.T) {
+	theT = t
+	defer removeBumped()
+	col := ev.New("C03", "rotation",
+		"complete enumeration: methods whose required witness is defined by the NeoFSAlphabet role {audit.put, neofs.update, processing.update} x blocks between the re-designation of the role (4 keys -> 4 other keys) and the invocation {0, 1} x {dismissed keys first, new keys only}: the dismissed keys (single key for audit.put, 3-of-4 for update) must be refused and leave the full snapshot untouched, the new keys must succeed; non-trivial = every case")
+	defer func() { col.Flush(true) }()
+	nshards, shard := envInt("VERIF_NSHARDS", 1), envInt("VERIF_SHARD_INDEX", 0)
+	idx := 0
+	for _, key := range []string{"audit.put/1", "neofs.update/3", "processing.update/3"} {
+		for _, delay := range []int{0, 1} {
+			for _, oldFirst := range []bool{true, false} {
+				idx++
+				if idx%nshards != shard {
+					continue
+				}
+				h := ev.NewHistory()
+				h.Op("%s, %d block(s) after the re-designation, dismissed keys first=%v", key, delay, oldFirst)
+				if !runCase(t, col, h, func() {
+					e := newC03Env(1)
+					defer e.c.Close()
+					var nk []*keys.PrivateKey
+					var npubs keys.PublicKeys
+					for i := 0; i < 4; i++ {
+						k := chainkit.DetKey(fmt.Sprintf("c03-ir-new-%d", i))
+						nk = append(nk, k)
+						npubs = append(npubs, k.PublicKey())
+						e.watch = append(e.watch, k.PublicKey().GetScriptHash())
+					}
+					contract := key[:strings.Index(key, ".")]
+					method := key[strings.Index(key, ".")+1 : strings.Index(key, "/")]
+					target := e.h[contract]
+					e.c.DesignateAlphabet(npubs)
+					e.c.Skip(delay)
+					try := func(who string, ks []*keys.PrivateKey, allowed bool) {
+						var signers []neotest.Signer
+						var args []any
+						if contract == "audit" {
+							signers = []neotest.Signer{neotest.NewSingleSigner(walletOf(ks[0]))}
+							args = []any{auditBlob(0, 3, detBytes("cid", 32), ks[0].PublicKey().Bytes(), 1)}
+						} else {
+							signers = []neotest.Signer{chainkit.Multisig(3, ks)}
+							args = updateArgs(contract, bumped(contract), nil)
+						}
+						pre := e.c.Snapshot(e.watch...)
+						o := e.c.Invoke(signers, target, method, args...)
+						what := fmt.Sprintf("%s by %s, right after the role was re-designated", key, who)
+						h.Op("%s -> %s", what, o)
+						if allowed != o.Halt {
+							fail("C03: %s: expected success=%v, got %s", what, allowed, o)
+						}
+						if !allowed {
+							e.inert(what, pre, o)
+						}
+					}
+					if oldFirst {
+						try("the dismissed role keys", e.ir, false)
+					}
+					try("the new role keys", nk, true)
+					h.NonTrivial()
+				}) {
+					return
+				}
+			}
+		}
+	}
+	col.SetExhaustive(true)
+}
+
 // c03Safe commits a safe method with plausible arguments and demands an empty diff.
 func c03Safe(h *ev.History, n int, contract string, m manifest.Method) {
 	e := newC03Env(n)
